@@ -24,6 +24,7 @@ CONSTANTS
   MinSteps = 0
   MaxSteps = 0
   RationalOnly = TRUE
+  Twins = FALSE
   NeedDt = FALSE
   BindLeaves = TRUE
   EmitOn = TRUE
